@@ -11,6 +11,15 @@ from lbry.dht.serialization.datagram import (RequestDatagram, ResponseDatagram, 
                                              make_compact_address, decode_compact_address,
                                              REQUEST_TYPE, RESPONSE_TYPE, ERROR_TYPE)
 
+LEVEL_TEXT = ('Bounded model checking of the real decoder/encoder source: every byte string up to the bound, every '
+              'truncation and every 1-byte (thorough: 2-byte) mutation of eight valid datagram kinds with symbolic '
+              'replacement bytes is pushed symbolically through the real datagram_received; the solver decides every '
+              'branch, so within the bounds no input class is sampled or skipped.  Round trips use symbolic ids, ports, '
+              'pages and arbitrary Unicode error text against an independent bencode reader.')
+LEVEL_NOTE = ('Trusted: z3, the interpreter and its library models (validated on every path by native replay against the '
+              'real code), the stub protocol object (handlers only record calls).  Outside: longer fully-arbitrary '
+              'datagrams, 3-byte mutations, handler behaviour on well-formed hostile field values.')
+
 ASSUMPTIONS = [
     'the protocol object is a stub: peer_manager.report_failure and handle_request/response/error_datagram only '
     'record that they were called (what the request handlers do with well-formed field values is outside the claim)',
@@ -108,20 +117,12 @@ def garbage(vm, n, first):
     if n and first is not None:
         b0 = data[0]
         if first == 'other':
-            vm.assume(b0 != 105 and b0 != 108 and b0 != 100)
+            vm.assume(b0 != 105)
+            vm.assume(b0 != 108)
+            vm.assume(b0 != 100)
         else:
             vm.assume(b0 == ord(first))
     return check(StubProtocol(), data)
-
-
-def pick(vm, name, n):
-    """Concrete index in [0, n) chosen by the solver (one fork per value)."""
-    pos = vm.new_int(name, 0, n - 1)
-    k = 0
-    for j in range(n):
-        if pos == j:
-            k = j
-    return k
 
 
 def mutate(vm, kind, nmut, lo, hi):
@@ -129,7 +130,7 @@ def mutate(vm, kind, nmut, lo, hi):
     data = valid_datagram(kind)
     last = lo - 1
     for m in range(nmut):
-        k = pick(vm, 'pos', hi - lo) + lo
+        k = vm.pick('pos', hi - lo) + lo
         if k <= last:
             return 'ok-skip-unordered'
         last = k
@@ -141,7 +142,7 @@ def mutate(vm, kind, nmut, lo, hi):
 
 def truncate(vm, kind):
     data = valid_datagram(kind)
-    k = pick(vm, 'cut', len(data))
+    k = vm.pick('cut', len(data))
     return check(StubProtocol(), data[:k])
 
 
@@ -279,19 +280,15 @@ def rt_response(vm, shape, n):
         for i in range(n):
             resp.append([vm.new_bytes('cid', 48), b'10.1.2.%d' % i, vm.new_int('cport', 1, 65535)])
     else:
-        peers = []
-        for i in range(n):
-            ip = [vm.new_int('oct', 0, 255) for _ in range(4)]
-            port = vm.new_int('pport', 1, 65535)
-            pid = vm.new_bytes('pid', 48)
-            addr = '%d.%d.%d.%d' % (ip[0], ip[1], ip[2], ip[3])
-            compact = bytes(make_compact_address(pid, addr, port))
-            if decode_compact_address(compact) != (pid, addr, port):
-                return 'VIOLATION: compact address does not round-trip'
-            peers.append(compact)
-        key = vm.new_bytes('key', 48)
-        resp = {b'token': vm.new_bytes('token', 48), b'p': vm.new_int('pages', 0, 10 ** 6), key: peers,
-                b'contacts': [], b'protocolVersion': 1}
+        # compact addresses are opaque 54-byte strings at this layer (their own round trip is the job rt_compact)
+        peers = [vm.new_bytes('peer', 54) for i in range(n)]
+        if shape == 'value-key':
+            key, pages = vm.new_bytes('key', 48), 3          # arbitrary key: every sort position among the fixed keys
+        else:
+            key, pages = KEY, vm.new_int('pages', 0, 10 ** 6)
+        resp = {b'token': vm.new_bytes('token', 48), b'p': pages, key: peers,
+                b'contacts': [[vm.new_bytes('cid', 48), b'10.1.2.3', vm.new_int('cport', 1, 65535)]],
+                b'protocolVersion': 1}
     msg = ResponseDatagram(RESPONSE_TYPE, rpc_id, node_id, resp)
     raw = msg.bencode()
     back = decode_datagram(raw)
@@ -316,7 +313,7 @@ def rt_error(vm, ncp, lo, hi):
     raw = msg.bencode()
     try:
         back = decode_datagram(raw)
-    except DecodeError:
+    except Exception:
         return 'VIOLATION: error datagram does not decode back'
     if not isinstance(back, ErrorDatagram):
         return 'VIOLATION: error decodes to another message class'
@@ -387,7 +384,7 @@ def jobs(tier):
                         max_depth=40, cost=30, bounds=dict(message=kind, ids='symbolic bytes', ints='symbolic'),
                         must_reach=('ok',)))
     for shape, ns in (('pong', [0]), ('contacts', [0, 1, 2] if tier == 'quick' else [0, 1, 2, 16]),
-                      ('value', [0, 1] if tier == 'quick' else [0, 1, 2])):
+                      ('value-key', [0, 1]), ('value-pages', [0, 2] if tier == 'quick' else [0, 1, 2, 8])):
         for n in ns:
             out.append(dict(name=f'roundtrip-response-{shape}-{n}', family='roundtrip', fn='rt_response', args=(shape, n),
                             loop_bound=3000, max_depth=40, cost=100 * (n + 1), bounds=dict(shape=shape, entries=n),
